@@ -32,7 +32,7 @@ for d in seeds:
         subprocess.run(["git", "-C", "/repo", "reset", "-q", "--hard", "HEAD"], check=True)
     rows.append((d, pid, verdict, time.time() - t, first[:160]))
     print("%-8s %-10s %4.0fs %s" % (d, verdict, time.time() - t, first[:120]), flush=True)
-with open(os.path.join(ROOT, "seeded", "REGRESSION.md"), "w") as f:
+with open(os.path.join(ROOT, "seeded", "REGRESSION.md") if not sel else os.path.join(ROOT, ".work", "regress-selected.md"), "w") as f:
     head = subprocess.run(["git", "-C", "/repo", "log", "--format=%h", "-1"], capture_output=True, text=True).stdout.strip()
     f.write("# Seeded changes against the quick checks (okane at %s)\n\n| seed | check | verdict | seconds | first report |\n|---|---|---|---|---|\n" % head)
     for r in rows:
